@@ -319,4 +319,28 @@ def final_field_terms(P, clsname: str) -> dict[str, ast.expr]:
         term = conv(val)
         if ok and term is not None:
             out[attr] = ast.fix_missing_locations(term)
+    # a write-once tuple field taken apart, once, into write-once fields: `self.a, self.b, self.c = self.t` at the top level of
+    # __init__ -- afterwards self.t reads (self.a, self.b, self.c), e.g. in `for fd in self.t: os.close(fd)`
+    family = set(P.mro(clsname)) | set(P.subclasses(clsname))
+    sites = _attr_store_sites(P)
+
+    def once_in_init(attr: str, owner: str) -> bool:
+        ss = [x for x in sites.get(attr, []) if x[0] in family or x[0] in ("<other object>", "<module>")]
+        return "*" not in sites and len(ss) == 1 and ss[0] == (owner, "__init__")
+
+    for c in P.mro(clsname):
+        ci = P.classes.get(c)
+        init = ci.methods.get("__init__") if ci else None
+        if init is None or init.variants:
+            continue
+        for st in init.node.body:
+            if not (isinstance(st, ast.Assign) and len(st.targets) == 1 and isinstance(st.targets[0], ast.Tuple)):
+                continue
+            tg, v = st.targets[0], st.value
+            if not (isinstance(v, ast.Attribute) and isinstance(v.value, ast.Name) and v.value.id == "self" and v.attr not in out):
+                continue
+            if not all(isinstance(x, ast.Attribute) and isinstance(x.value, ast.Name) and x.value.id == "self" for x in tg.elts):
+                continue
+            if once_in_init(v.attr, c) and all(once_in_init(x.attr, c) for x in tg.elts):
+                out[v.attr] = ast.fix_missing_locations(ast.Tuple([ast.Attribute(ast.Name("self", ast.Load()), x.attr, ast.Load()) for x in tg.elts], ast.Load()))
     return out
